@@ -19,7 +19,7 @@ use crate::{
 use bytes::Bytes;
 use futures::{
     stream::{self, Stream},
-    Sink, StreamExt,
+    Sink,
 };
 use http::{Request, Response};
 use std::borrow::Cow;
@@ -47,9 +47,9 @@ where
         self,
     ) -> Result<impl Stream<Item = Result<Bytes, Bytes>> + Send + 'static, Error>
     {
-        Ok(stream::iter(self.into_body())
-            .ready_chunks(16)
-            .map(|chunk| Ok(Bytes::from(chunk))))
+        // the body is already complete: hand it over as one chunk (cutting it
+        // into fixed-size pieces would split multi-byte characters of text streams)
+        Ok(stream::once(std::future::ready(Ok(self.into_body()))))
     }
 
     fn to_content_type(&self) -> Option<Cow<'_, str>> {
